@@ -219,11 +219,11 @@ def run_case(data):
                 if f.problems or f.type != wire.WINDOW_UPDATE:
                     r.violate('C02:unexpected-frame-after-ack', repr(f))
             sizes = [u[wire.S_HEADER_TABLE_SIZE] for u in [acked] + unacked if wire.S_HEADER_TABLE_SIZE in u]
-            if sizes and s.m.enc.header_table_size != min(sizes):
+            if sizes:
                 # the simulated peer's encoder follows and announces it in its next block; it already shrinks
                 # to the smallest size we have sent (always allowed), because the library applies a pending
                 # HEADER_TABLE_SIZE at the first acknowledgement it sees (known finding K02)
-                s.m.enc.header_table_size = min(sizes)
+                s.m.set_encoder_table_size(min(sizes))
             if acked.get(wire.S_MAX_FRAME_SIZE, 16384) > mfs and (can_send or promised):
                 r.labels.add('local-max-frame-size-above-peers-acked-with-streams')
         elif op == 'peer-mfs':
